@@ -36,9 +36,18 @@ def main(p):
     reply = Resp(ok=True, kind=1, big=2 ** 53 + 1, note_text='n')
     it = reply.items.add()
     it.x, it.kind = 1, 2
-    reply_json = json_format.MessageToJson(reply, use_integers_for_enums=numeric).encode()
-    stream_json = ('[' + json_format.MessageToJson(reply, use_integers_for_enums=numeric) + ',' +
-                   json_format.MessageToJson(Resp(ok=False), use_integers_for_enums=numeric) + ']').encode()
+    # the server is one release ahead of the client: its replies carry members (top-level and nested) that the response type the
+    # library was generated from does not declare; they are not part of the declared type and decode to nothing
+    def newer(js):
+        d = json.loads(js)
+        d['futureField'] = {'a': [1, 'x'], 'b': None}
+        d['futureScalar'] = 7
+        for it_ in d.get('items', []):
+            it_['futureNested'] = 'v'
+        return json.dumps(d)
+    reply_json = newer(json_format.MessageToJson(reply, use_integers_for_enums=numeric)).encode()
+    stream_json = ('[' + newer(json_format.MessageToJson(reply, use_integers_for_enums=numeric)) + ',' +
+                   newer(json_format.MessageToJson(Resp(ok=False), use_integers_for_enums=numeric)) + ']').encode()
 
     def fail(cell, val, kind, detail, sub=''):
         cause = None
